@@ -40,7 +40,7 @@ META = {
     'components_real': ['S3TapeCassette._get_id_prefixes / iter_recording_ids', 'S3BasicFacade.iter_keys last-modified predicate'],
     'components_stub': ['S3 bucket', 'clock'],
     'budgets': {'quick': {'seconds': 20}, 'thorough': {'seconds': 240}},
-    'required_probes': {'quick': ['grid_window'], 'thorough': ['grid_window', 'random_window', 'end_defaults_to_now', 'window_crosses_midnight_end_earlier_in_day', 'long_lived_cassette_lookup', 'random_order_window']},
+    'required_probes': {'quick': ['grid_window'], 'thorough': ['grid_window', 'random_window', 'end_defaults_to_now', 'window_crosses_midnight_end_earlier_in_day', 'long_lived_cassette_lookup', 'random_order_window', 'interleaved_lookups_on_one_cassette']},
 }
 
 
@@ -59,13 +59,43 @@ def populate(clock, store, instants, tape=None):
     return out
 
 
-def check_window(run, cas, recs, start, end, now, label, random_results=False):
+def interleaved_windows(run, tape, cas, recs, windows, now):
+    """Several lookups with different windows are in flight on ONE cassette object at the same time: their (lazy)
+    result iterators are consumed in a tape-chosen interleaving.  Each must still be exact for its own window."""
+    run.probe('interleaved_lookups_on_one_cassette')
+    its, got, failed = [], [[] for _ in windows], {}
+    for n, (a, b) in enumerate(windows):
+        try:
+            its.append(iter(cas.iter_recording_ids('OpA', start_date=a, end_date=b)))
+        except Exception as ex:
+            its.append(None)
+            failed[n] = ex
+    live = [n for n, it in enumerate(its) if it is not None]
+    while live:
+        n = live[tape.draw(len(live))]
+        try:
+            got[n].append(next(its[n]))
+        except StopIteration:
+            live.remove(n)
+        except Exception as ex:
+            failed[n] = ex
+            live.remove(n)
+    for n, (a, b) in enumerate(windows):
+        label = 'lookup %d of %d interleaved on one cassette,' % (n + 1, len(windows))
+        if n in failed:
+            run.violate('window_exact', 'lookup-raised:%s' % type(failed[n]).__name__, '%s window %s .. %s raised %r' % (label, a, b, failed[n]))
+        else:
+            check_window(run, cas, recs, a, b, now, label, got=got[n])
+
+
+def check_window(run, cas, recs, start, end, now, label, random_results=False, got=None):
     exp = set(rid for t, rid in recs if start <= t and t <= (end if end is not None else now.replace(microsecond=0)))
     try:
         if random_results:
             run.probe('random_order_window')
             label += ' (random order)'
-        got = list(cas.iter_recording_ids('OpA', start_date=start, end_date=end, random_results=random_results))
+        if got is None:
+            got = list(cas.iter_recording_ids('OpA', start_date=start, end_date=end, random_results=random_results))
     except Exception as ex:
         run.violate('window_exact', 'lookup-raised:%s' % type(ex).__name__, '%s window %s .. %s raised %r' % (label, start, end, ex))
         return
@@ -145,7 +175,14 @@ def random_windows(tape, clock):
                     a, b = b, a
                 now = T0 + datetime.timedelta(days=5)
                 clock.set(now)
-                check_window(run, cas, recs, a, b, now, 'random', random_results=tape.draw(3) == 2)
+                if tape.draw(4) == 3:
+                    wins = [(a, b)]
+                    for _ in range(1 + tape.draw(2)):
+                        c, d = tape.choice(instants), tape.choice(instants)
+                        wins.append((min(c, d), max(c, d)))
+                    interleaved_windows(run, tape, cas, recs, tape.shuffle(wins), now)
+                else:
+                    check_window(run, cas, recs, a, b, now, 'random', random_results=tape.draw(3) == 2)
             run.subruns += 1
             run.probe('random_window')
         run.say('%d random windows over recordings at %s' % (run.subruns, [str(t) for t in instants][:6]))
